@@ -156,6 +156,19 @@ func tagPacket(c *Case, p *PacketIn) {
 	default:
 		c.Tag("ext=legacy")
 	}
+	if p.H.Extension {
+		switch n := len(p.Exts); {
+		case n >= 255:
+			c.Tag("elems>=255")
+		case n > 14:
+			c.Tag("elems=15..254")
+		}
+		if pr := p.H.ExtensionProfile; pr > 0x1000 && pr <= 0x100F {
+			c.Tag("profile=appbits")
+		} else if pr != 0xBEDE && pr != 0x1000 && len(p.Exts) == 1 && len(p.Exts[0].Payload) > 260 {
+			c.Tag("legacy>260")
+		}
+	}
 	if len(p.Payload) == 0 {
 		c.Tag("payload=empty")
 	}
@@ -309,62 +322,72 @@ func init() {
 				})
 			}
 		}
+		// element COUNTS around and beyond the 14 ids of the one-byte form: two-byte headers with
+		// 14 … 255 distinct ids (short values, and all 255 bytes long: the largest block), one-byte
+		// headers that repeat ids (as a decoded wire image may)
+		for _, n := range []int{14, 15, 16, 17, 40, 254, 255, -15, -16, -30} {
+			for rep := 0; rep < 3; rep++ {
+				n, rep := n, rep
+				x.Case(func(c *Case) {
+					p := &PacketIn{}
+					genFixed(c.R, &p.H)
+					p.H.Extension = true
+					if n < 0 {
+						p.H.ExtensionProfile = 0xBEDE
+						for i := 0; i < -n; i++ {
+							p.Exts = append(p.Exts, ExtIn{uint8(1 + i%14), c.R.Bytes(c.R.Pick(1, 2, 16, c.R.Range(1, 16)))})
+						}
+					} else {
+						p.H.ExtensionProfile = 0x1000
+						p.Exts = genExtsTwoFull(c.R, c.R.Perm(255)[:n], 0)
+						if rep != 0 {
+							for i := range p.Exts {
+								p.Exts[i].Payload = p.Exts[i].Payload[:c.R.Pick(0, 1, 2, 3, 17)]
+							}
+						}
+					}
+					p.Payload = c.R.Bytes(c.R.Intn(3))
+					c.Tag("many-elements")
+					tagPacket(c, p)
+					observeC01(c, p, caGenPrev(c))
+				})
+			}
+		}
 		maxPl := 1500
 		if x.Thorough() {
 			maxPl = 20000
 		}
 		{
-			// quick tier: blocks of 2^14 words and more (>= 65536 bytes: the byte length no longer
-			// fits 16 bits — seeds C01-r2-1 / C03-r2-1), legacy and two-byte forms (cheap to walk);
-			// thorough tier: the largest block the 16-bit word count can describe, and one word more
-			// (outside the domain: the count wraps; correspondence only), all three forms
-			wordsList, kindList := []int{16384, 16385, 32768}, []int{profLegacy, profTwo}
-			if x.Thorough() {
-				wordsList, kindList = []int{65535, 65534, 65536, 16384, 16385, 32768}, []int{profLegacy, profTwo, profOne}
+			// the boundaries of the 16-bit length field (which counts words): 2^14 words = 65536 bytes
+			// and more (the byte length no longer fits 16 bits — seeds C01-r2-1 / C03-r2-1); the
+			// largest two-byte block with distinct ids (255 x 257 bytes = 16384 words); 65535 words,
+			// the largest block the field can describe, and one word less (seed C01-r5-1) — legacy
+			// form (one value) and two-byte form (repeated ids) in the quick tier; thorough tier adds
+			// the one-byte form (tens of thousands of elements) and one word too many (outside the
+			// domain: the count wraps; correspondence only)
+			type blk struct{ kind, words int }
+			var blks []blk
+			for _, w := range []int{16383, 16384, 16385, 32768, 65534, 65535} {
+				blks = append(blks, blk{profLegacy, w}, blk{profTwo, w})
 			}
-			for _, words := range wordsList {
-				for _, kind := range kindList {
-					words, kind := words, kind
-					x.Case(func(c *Case) {
-						p := &PacketIn{}
-						genFixed(c.R, &p.H)
-						p.H.Extension = true
-						switch kind {
-						case profLegacy:
-							p.H.ExtensionProfile = 0x0101
-							p.Exts = []ExtIn{{0, c.R.Bytes(4 * words)}}
-						case profTwo:
-							p.H.ExtensionProfile = 0x1000
-							for left := 4 * words; left > 0; {
-								l := 255
-								if left < 257 {
-									l = left - 2
-								}
-								if l < 0 {
-									break
-								}
-								p.Exts = append(p.Exts, ExtIn{uint8(1 + len(p.Exts)%255), c.R.Bytes(l)})
-								left -= l + 2
-							}
-						default:
-							p.H.ExtensionProfile = 0xBEDE
-							for left := 4 * words; left > 0; {
-								l := 16
-								if left < 17 {
-									l = left - 1
-								}
-								if l < 1 {
-									break
-								}
-								p.Exts = append(p.Exts, ExtIn{uint8(1 + len(p.Exts)%14), c.R.Bytes(l)})
-								left -= l + 1
-							}
-						}
-						p.Payload = c.R.Bytes(c.R.Intn(3))
-						c.Tag("ext=huge")
-						observeC01(c, p, nil)
-					})
+			if x.Thorough() {
+				for _, w := range []int{16384, 16385, 32768, 65534, 65535} {
+					blks = append(blks, blk{profOne, w})
 				}
+				blks = append(blks, blk{profLegacy, 65536}, blk{profTwo, 65536}, blk{profOne, 65536})
+			}
+			for _, b := range blks {
+				b := b
+				x.Case(func(c *Case) {
+					p := &PacketIn{}
+					genFixed(c.R, &p.H)
+					p.H.Extension = true
+					p.H.ExtensionProfile, p.Exts = genExtsBlock(c.R, b.kind, b.words)
+					p.Payload = c.R.Bytes(c.R.Intn(3))
+					c.Tag("ext=huge")
+					tagPacket(c, p)
+					observeC01(c, p, nil)
+				})
 			}
 		}
 		for i, n := 0, x.N(100000, 1500000); i < n; i++ {
@@ -654,6 +677,45 @@ func init() {
 					tagPacket(c, p)
 					observeC04(c, p, caFillDst(c.R, n, c.R.Pick(1, 2, 3)))
 				})
+			}
+		}
+		// large extension blocks x destinations just below / at / above MarshalSize(): a legacy value
+		// (whole words, any length) or a run of maximal two-byte elements, longer than what a
+		// per-element estimate (2+255 bytes), an MTU or a 16-bit byte count covers; the two largest
+		// of each form (distinct two-byte ids: 16384 words; the length field's maximum: 65535 words)
+		// with a one-byte-short, an exact and a roomy destination only
+		{
+			type blk struct{ kind, words int }
+			for _, b := range []blk{{profLegacy, 65}, {profLegacy, 66}, {profLegacy, 67}, {profLegacy, 128}, {profLegacy, 375},
+				{profLegacy, 1024}, {profTwo, 65}, {profTwo, 66}, {profTwo, 375}, {profTwo, 1024},
+				{profLegacy, 16384}, {profTwo, 16384}, {profLegacy, 65535}, {profTwo, 65535}} {
+				deltas := []int{-8, -7, -6, -5, -4, -3, -2, -1, 0, 1, 300}
+				if b.words >= 16384 {
+					deltas = []int{-1, 0, 5}
+				}
+				for _, d := range deltas {
+					for _, pl := range []int{0, 3} {
+						if b.words >= 16384 && pl != 0 {
+							continue
+						}
+						b, d, pl := b, d, pl
+						x.Case(func(c *Case) {
+							p := &PacketIn{}
+							genFixed(c.R, &p.H)
+							p.H.Extension = true
+							p.H.ExtensionProfile, p.Exts = genExtsBlock(c.R, b.kind, b.words)
+							p.Payload = c.R.Bytes(pl)
+							if c.R.Chance(1, 3) {
+								p.H.Padding = true
+								p.PadSize = uint8(c.R.Pick(1, 4, 255))
+							}
+							c.Tag("ext=large-block")
+							tagPacket(c, p)
+							n := p.Build().MarshalSize() + d
+							observeC04(c, p, caFillDst(c.R, n, c.R.Pick(0, 1, 2, 3)))
+						})
+					}
+				}
 			}
 		}
 		maxPl := 1500
@@ -992,6 +1054,42 @@ func init() {
 							observeC20(c, p, false, caGenMut(c.R, p, mk), side == 1)
 						})
 					}
+				}
+			}
+		}
+		// element counts around and beyond the 14 ids of the one-byte form (two-byte: distinct ids up
+		// to all 255; one-byte: repeated ids, as decoded from a wire image), and the largest blocks
+		// (a legacy value of 65535 words, 255 two-byte elements of 255 bytes) x mutation x side
+		for _, n := range []int{14, 15, 16, 40, 255, -15, -65535, -16384} {
+			for mk := 0; mk <= 5; mk++ {
+				for side := 0; side < 2; side++ {
+					n, mk, side := n, mk, side
+					if n < -15 && mk != 0 && mk != 3 {
+						continue
+					}
+					x.Case(func(c *Case) {
+						p := caGenPacketFull(c.R, profTwo)
+						switch {
+						case n == -15:
+							p.H.ExtensionProfile, p.Exts = 0xBEDE, nil
+							for i := 0; i < 15+c.R.Intn(3); i++ {
+								p.Exts = append(p.Exts, ExtIn{uint8(1 + i%14), c.R.Bytes(c.R.Range(1, 16))})
+							}
+						case n == -65535:
+							p.H.ExtensionProfile, p.Exts = genExtsBlock(c.R, profLegacy, 65535)
+						case n == -16384:
+							p.H.ExtensionProfile, p.Exts = genExtsBlock(c.R, profTwo, 16384)
+						default:
+							p.Exts = genExtsTwoFull(c.R, c.R.Perm(255)[:n], 0)
+							for i := range p.Exts {
+								p.Exts[i].Payload = p.Exts[i].Payload[:c.R.Pick(0, 1, 2, 4, 17)]
+							}
+						}
+						c.Tag("many-elements/large-block")
+						tagPacket(c, p)
+						c.Tag([]string{"mut=none", "mut=payload", "mut=csrc", "mut=extbyte", "mut=set", "mut=del"}[mk])
+						observeC20x(c, p, false, caGenMut(c.R, p, mk), side == 1, c.R.Chance(1, 3))
+					})
 				}
 			}
 		}
